@@ -191,6 +191,166 @@ let after_emplace t a (buf, r) =
 
 let pv = Some (n_of_int 256)
 
+(* ---------- histories (C11-C14) ---------- *)
+let clean buf = List.map (fun b -> if int_of_n b > 255 then N0 else b) buf
+let oout_s = function
+  | ODone -> "done" | ORefused -> "refused" | OErr k -> "err:" ^ kind_s k | OPanic -> "panic" | OBad -> "bad"
+let rec vop_of = function
+  | Lst [Atom "push"; i] -> VPush (init_of i)
+  | Lst [Atom "pop"] -> VPop
+  | Lst (Atom "pushslice" :: r) -> VPushSlice (List.map init_of r)
+  | Lst (Atom "extend" :: r) -> VExtend (List.map init_of r)
+  | Lst [Atom "truncate"; Atom n] -> VTruncate (num_of_string n)
+  | Lst [Atom "clear"] -> VClear
+  | Lst [Atom "remove"; Atom n] -> VRemove (num_of_string n)
+  | Lst [Atom "swapremove"; Atom n] -> VSwapRemove (num_of_string n)
+  | Lst [Atom "resize"; Atom n; i] -> VResize (num_of_string n, init_of i)
+  | Lst [Atom "set"; Atom n; i] -> VSet (num_of_string n, init_of i)
+  | Lst [Atom "pushstr"; Atom h] -> SPushStr (bytes_of_hex h)
+  | Lst [Atom "pushchar"; Atom c] -> SPushChar (num_of_string c)
+  | _ -> failwith "vop"
+let fop_of = function
+  | Lst [Atom "push"; i] -> FPush (init_of i)
+  | Lst [Atom "pop"] -> FPop
+  | Lst [Atom "truncate"; Atom n] -> FTruncate (num_of_string n)
+  | Lst [Atom "clear"] -> FClear
+  | Lst [Atom "editvec"; Atom n; o] -> FEditVec (num_of_string n, vop_of o)
+  | Lst [Atom "editassign"; Atom n; i] -> FEditAssign (num_of_string n, init_of i)
+  | _ -> failwith "fop"
+let hist_obs t a buf =
+  let c = clean buf in
+  let v = validate t a c in
+  " val=" ^ res_s unit_s v ^ " "
+  ^ (match v with
+      | Ok () -> "view=" ^ res_s (fun v -> ":" ^ value_s v) (view t c) ^ " size=" ^ res_s (fun n -> ":" ^ num_s n) (size_m t c)
+      | _ -> "view=- size=-")
+  ^ " buf=" ^ hex_of_bytes buf
+let split_bar s =
+  List.filter (fun x -> x <> "") (List.map String.trim (String.split_on_char '|' s))
+let hist t a bs parts =
+  match parts with
+  | [] -> failwith "hist"
+  | ini :: ops ->
+    let (sx, _) = parse_sexp (tokenize ini) in
+    let (buf, r) = emplace pv t (init_of sx) a bs in
+    let b = Buffer.create 512 in
+    Buffer.add_string b ("init=" ^ res_s unit_s r);
+    (match r with
+     | Ok () ->
+       Buffer.add_string b (hist_obs t a buf);
+       let cur = ref buf and go = ref true in
+       List.iter (fun o ->
+           if !go then begin
+             let (sx, _) = parse_sexp (tokenize o) in
+             let (nb, out) = match t with
+               | TFlex (_, _) -> flex_op pv t a (fop_of sx) !cur
+               | _ -> vec_op pv t (vop_of sx) !cur in
+             cur := nb;
+             Buffer.add_string b (" | res=" ^ oout_s out);
+             Buffer.add_string b (hist_obs t a nb);
+             (match validate t a (clean nb) with Ok () -> () | _ -> go := false)
+           end) ops
+     | _ -> ());
+    Buffer.contents b
+
+(* ---------- IO (C07-C10) ---------- *)
+let iokind_of = function
+  | "Interrupted" -> Interrupted | "WouldBlock" -> WouldBlock | "Other" -> IoOther | "UnexpectedEof" -> UnexpectedEof
+  | "BrokenPipe" -> BrokenPipe | "TimedOut" -> TimedOut | "OutOfMemory" -> OutOfMemory | s -> failwith ("iokind " ^ s)
+let iokind_s = function
+  | Interrupted -> "Interrupted" | WouldBlock -> "WouldBlock" | IoOther -> "Other" | UnexpectedEof -> "UnexpectedEof"
+  | BrokenPipe -> "BrokenPipe" | TimedOut -> "TimedOut" | OutOfMemory -> "OutOfMemory"
+let script_toks s = if s = "-" then [] else String.split_on_char ',' s
+let tl1 s = String.sub s 1 (String.length s - 1)
+let rdir_of s =
+  match s.[0] with
+  | 'd' -> RD (n_of_int (int_of_string (tl1 s))) | 'z' -> RZ | 'e' -> RE (iokind_of (tl1 s)) | 'p' -> RP
+  | _ -> failwith "rdir"
+let wdir_of s =
+  match s.[0] with
+  | 'a' -> WA (n_of_int (int_of_string (tl1 s))) | 'z' -> WZ | 'e' -> WE (iokind_of (tl1 s)) | 'p' -> WP
+  | _ -> failwith "wdir"
+let fdir_of s =
+  match s with
+  | "fo" -> FO | "fp" -> FP | _ -> if s.[0] = 'f' && s.[1] = 'e' then FE (iokind_of (String.sub s 2 (String.length s - 2))) else failwith "fdir"
+let view_s t occ = match view t (clean occ) with Ok v -> value_s v | _ -> "VIEW-FAILED"
+let rout_s t = function
+  | RMsg occ -> "msg:" ^ view_s t occ
+  | RClosed -> "closed" | RParse (k, p) -> Printf.sprintf "parse:%s:%d" (kind_s k) (int_of_n p)
+  | RRead e -> "read:" ^ iokind_s e | RPanic -> "panic" | RHang -> "hang" | RPending -> "pending"
+let sout_s = function
+  | SOk -> "ok" | SEmplace (k, p) -> Printf.sprintf "emplace:%s:%d" (kind_s k) (int_of_n p)
+  | SIo e -> "io:" ^ iokind_s e | SPanic -> "panic" | SHang -> "hang" | SPending -> "pending"
+let wev_s = function
+  | EvW n -> "w" ^ num_s n | EvWZ -> "wz" | EvWE -> "we" | EvWP -> "wp" | EvFO -> "fo" | EvFP -> "fp" | EvFE -> "fe"
+let inits_of parts = List.map (fun s -> let (sx, _) = parse_sexp (tokenize s) in init_of sx) parts
+let vf t = fun a bs -> validate t a (clean bs)
+let sf t = fun bs -> size_m t (clean bs)
+let ef t = fun i a buf -> emplace pv t i a buf
+let unspecified = n_of_int 256
+let io_op t kind args =
+  let nlen l = List.length l in
+  match kind, args with
+  | ("recv" | "arecv"), mml :: stream :: rscript :: nrecv :: _ ->
+    let stream = bytes_of_hex stream in
+    let script = List.map rdir_of (script_toks rscript) in
+    let nrecv = int_of_string nrecv in
+    let capn = io_capacity (min_size t) (n_of_int (int_of_string mml)) in
+    let limit = nlen stream + nlen script + 2 * nrecv + 16 in
+    let b = new_buffer capn N0 in
+    let s = { stream = stream; rscript = script; rcalls = N0 } in
+    if kind = "recv" then begin
+      let (outs, s') = recv_many (vf t) (sf t) (nat_of_int nrecv) (n_of_int limit) b s in
+      "r=" ^ String.concat ";" (List.map (rout_s t) outs) ^ " calls=" ^ num_s s'.rcalls
+    end else begin
+      let ((outs, s'), polls) =
+        arecv_many (vf t) (sf t) (nat_of_int nrecv) (nat_of_int (2 * limit + 8)) (n_of_int limit) N0 false b s in
+      "r=" ^ String.concat ";" (List.map (rout_s t) outs) ^ " calls=" ^ num_s s'.rcalls ^ " polls=" ^ num_s polls
+    end
+  | "send", mml :: wscript :: rest ->
+    let inits = inits_of (split_bar (String.concat " " rest)) in
+    let script = List.map wdir_of (script_toks wscript) in
+    let capn = io_capacity (min_size t) (n_of_int (int_of_string mml)) in
+    let limit = 64 * nlen inits + nlen script + 16 in
+    let sd = { sbuf = new_buffer capn unspecified; poisoned = false } in
+    let k = { sunk = []; wscript = script; fscript = []; wcalls = N0 } in
+    let (outs, k') = send_many (sf t) (ef t) (n_of_int limit) inits sd k in
+    "s=" ^ String.concat ";" (List.map sout_s outs) ^ " sink=" ^ hex_of_bytes k'.sunk ^ " calls=" ^ num_s k'.wcalls
+  | "asend", mml :: wscript :: fscript :: rest ->
+    let inits = inits_of (split_bar (String.concat " " rest)) in
+    let script = List.map wdir_of (script_toks wscript) in
+    let fs = List.map fdir_of (script_toks fscript) in
+    let capn = io_capacity (min_size t) (n_of_int (int_of_string mml)) in
+    let limit = 64 * nlen inits + nlen script + nlen fs + 16 in
+    let sd = { sbuf = new_buffer capn unspecified; poisoned = false } in
+    let k = { sunk = []; wscript = script; fscript = fs; wcalls = N0 } in
+    let ((outs, k'), polls) = asend_many (sf t) (ef t) (nat_of_int (2 * limit + 8)) (n_of_int limit) N0 inits sd k in
+    "s=" ^ String.concat ";" (List.map (fun (o, evs) -> sout_s o ^ "[" ^ String.concat "." (List.map wev_s evs) ^ "]") outs)
+    ^ " sink=" ^ hex_of_bytes k'.sunk ^ " calls=" ^ num_s k'.wcalls ^ " polls=" ^ num_s polls
+  | "sys", mml :: pcap :: sched :: rest ->
+    let inits = inits_of (split_bar (String.concat " " rest)) in
+    let capn = io_capacity (min_size t) (n_of_int (int_of_string mml)) in
+    let sched = if sched = "-" then [] else
+        List.init (String.length sched) (fun i -> match sched.[i] with
+            | 'S' -> (true, false) | 's' -> (true, true) | 'R' -> (false, false) | 'r' -> (false, true)
+            | _ -> failwith "schedule") in
+    (* total bytes: sizes of the inits whose emplacement succeeds in the sender's buffer *)
+    let total = List.fold_left (fun acc i ->
+        let (buf, r) = emplace pv t i N0 (List.init (int_of_n capn) (fun _ -> unspecified)) in
+        match r with Ok () -> (match size_m t (clean buf) with Ok n -> acc + int_of_n n | _ -> acc) | _ -> acc) 0 inits in
+    let budget = 4 * (total + nlen inits) + 64 in
+    let fuel = nat_of_int (4 * (total + int_of_n capn) + 8 * nlen inits + 64) in
+    let y0 = { y_send = TIdle inits; y_sd = { sbuf = new_buffer capn unspecified; poisoned = false };
+               y_ring = { rbytes = []; rcap = n_of_int (int_of_string pcap); closed = false };
+               y_recv = None; y_rb = new_buffer capn N0; y_rpending = false; y_delivered = []; y_polls = N0 } in
+    let y1 = run_schedule (vf t) (sf t) (ef t) fuel sched y0 in
+    let y2 = run_tail (vf t) (sf t) (ef t) (nat_of_int (2 * budget + 8)) fuel (n_of_int budget) y1.y_polls true y1 in
+    "delivered=" ^ String.concat ";" (List.rev_map (view_s t) y2.y_delivered)
+    ^ " recv_end=" ^ (match y2.y_recv with Some o -> rout_s t o | None -> "running")
+    ^ " send_end=" ^ (match y2.y_send with TDone o -> sout_s o | _ -> "running")
+    ^ " polls=" ^ num_s y2.y_polls
+  | _ -> failwith ("io kind " ^ kind)
+
 let handle line =
   match String.split_on_char ' ' line with
   | "T" :: id :: rest ->
@@ -222,6 +382,13 @@ let handle line =
     let t = ty_get tid in
     let a = n_of_int (int_of_string off) and bs = bytes_of_hex hex in
     Some (cid ^ " " ^ after_emplace t a (default_in_place pv t a bs))
+  | "H" :: cid :: tid :: off :: hex :: rest ->
+    let t = ty_get tid in
+    let a = n_of_int (int_of_string off) and bs = bytes_of_hex hex in
+    Some (cid ^ " " ^ hist t a bs (split_bar (String.concat " " rest)))
+  | "IO" :: cid :: kind :: tid :: args ->
+    let t = ty_get tid in
+    Some (cid ^ " " ^ io_op t kind args)
   | [""] | [] -> None
   | op :: _ -> failwith ("unknown op " ^ op)
 
